@@ -844,6 +844,19 @@ class Ctx:
             r = s.check()
             m = s.model() if r == z3.sat else None
             self.stats.fresh_solver_queries += 1
+        if r == z3.unknown:
+            # last resort: the dedicated nonlinear-real tactic (only applicable to pure real-arithmetic queries)
+            try:
+                s3 = z3.Then("simplify", "purify-arith", "qfnra-nlsat").solver()
+                s3.set("timeout", full)
+                s3.add(*constraints)
+                r3 = s3.check()
+                if r3 != z3.unknown:
+                    r = r3
+                    m = s3.model() if r3 == z3.sat else None
+                    s = s3
+            except z3.Z3Exception:
+                pass
         self.stats.solver_s += time.perf_counter() - t
         self.stats.queries += 1
         if r == z3.unknown:
@@ -1217,7 +1230,7 @@ def _dec_json(decs):
 class Explorer:
     """Explore all paths of ``body(ctx)``."""
 
-    def __init__(self, query_timeout_ms=20000, max_paths=200000, wall_budget_s=None,
+    def __init__(self, query_timeout_ms=30000, max_paths=200000, wall_budget_s=None,
                  div_policy="assume", sqrt_policy="assume", stop_on_violation=True,
                  relax_ints=False, side_timeout_ms=2000, poly_division=True, normalize=True,
                  incremental_timeout_ms=1500):
